@@ -618,6 +618,33 @@ func hexaSection(vals []int64, withDriver bool) {
 	}
 }
 
+// hexaDirect evaluates the round trip and the documented forms on n random
+// integers (uniform over the number of significant bits) without the driver.
+func hexaDirect(rng *vh.Rng, n int) {
+	const workers = 8
+	var wg sync.WaitGroup
+	for w := 0; w < workers; w++ {
+		r := rng.Fork()
+		cnt := n / workers
+		wg.Add(1)
+		go func() {
+			defer wg.Done()
+			for i := 0; i < cnt; i++ {
+				v := int64(r.U64() >> uint(r.Intn(64)))
+				if r.Bool() {
+					v = -v
+				}
+				evalHexa(v, "X "+strconv.FormatInt(v, 10))
+			}
+		}()
+	}
+	wg.Wait()
+	m := n / workers * workers
+	rep.Evaluations += m
+	bulkDistinct += m
+	rep.CountN("hexa:direct-property-only", m)
+}
+
 func hexaBoundaries() []int64 {
 	var out []int64
 	add := func(v int64) { out = append(out, v) }
@@ -1113,17 +1140,7 @@ func main() {
 		}
 	}
 	hexaSection(hv, true)
-	{
-		r2 := rng.Fork()
-		direct := make([]int64, nHexDirect)
-		for i := range direct {
-			direct[i] = int64(r2.U64() >> uint(r2.Intn(64)))
-			if r2.Bool() {
-				direct[i] = -direct[i]
-			}
-		}
-		hexaSection(direct, false) // property only (round trip + forms) on the implementation
-	}
+	hexaDirect(rng.Fork(), nHexDirect) // property only (round trip + forms) on the implementation
 
 	// 4. bitutil
 	nBit := 40000
